@@ -54,9 +54,9 @@ def fmt_case(kind, ents, qs):
 
 class C08(PropBase):
     pid = "C08"
-    coq_dirs = ["Base", "C08"]
+    coq_dirs = ["Base", "Gen", "C08"]
     bins = ["c08"]
-    translators = []
+    translators = ["c08_tables.py"]
     rule = ("cases = (table kind, list of (base,size,tag), query addresses); exhaustive over base 0..4 x size 0..2 x tag 0..1 "
             "lists up to the tier's length, replayed at the top of the address space, plus random u64 lists with a boundary pool; "
             "a case is non-trivial when the built table is non-empty and at least one entry was dropped, merged or rejected, "
